@@ -238,6 +238,8 @@ fn list_replays(id: &str) -> Vec<PathBuf> {
             .filter_map(|e| e.ok())
             .map(|e| e.path())
             .filter(|p| p.extension().map(|e| e == "json").unwrap_or(false))
+            // sensitivity measurements switch the regression seeds of seeded changes off, so that only the generators count
+            .filter(|p| std::env::var("PVERIF_SKIP_SEEDED").is_err() || !p.file_name().map(|f| f.to_string_lossy().starts_with("seeded-")).unwrap_or(false))
             .collect(),
         Err(_) => vec![],
     };
